@@ -174,14 +174,27 @@ BOUND_NOTE = ('corpus definitions %s; inputs: fully symbolic bytes up to the lis
               'every harness is listed with its input shape in kani_harnesses')
 
 TWINS = {
+    'find_boundary_twin': dict(crate='src_proofs', harnesses=['find_boundary_str', 'find_boundary_bytes_n5']),
+    'read_twin': dict(crate='src_proofs', harnesses=['read_n9_k8', 'read_n3_k2', 'read_n1_k1', 'read_str_n9_k8', 'read_str_n3_k2', 'read_n33_k32']),
+    'state_twin': dict(crate='src_proofs', harnesses=['state_n4', 'state_n1']),
     'bump_twin': dict(crate='src_proofs', harnesses=['bump_twin_n3', 'bump_twin_n0', 'bump_twin_n7', 'state_n4'], allow=BUMP_ALLOW,
                       native_candidates=_bump_candidates),
+}
+
+SRC_TWINS = {
+    'Lexer::bump': 'bump_twin',
+    'str::find_boundary': 'find_boundary_twin', '[u8]::find_boundary': 'find_boundary_twin', 'str::is_boundary': 'find_boundary_twin',
+    '[u8]::is_boundary': 'find_boundary_twin', 'Lexer(LexerInternal)::end_to_boundary': 'find_boundary_twin',
+    'str::read': 'read_twin', '[u8]::read': 'read_twin', 'Lexer(LexerInternal)::read': 'read_twin',
+    'Lexer::slice': 'state_twin', 'Lexer::remainder': 'state_twin', 'Lexer::span': 'state_twin', 'Lexer::morph': 'state_twin',
+    'Lexer(Clone)::clone': 'state_twin',
 }
 
 PLAN = {
     'C01': dict(
         level='model_checking', engine='verus+kani',
         verus=[('v_cg', [{}]), ('v_src', BOTH)],
+        twins=SRC_TWINS,
         kani=klex_suite('K-lex maximal munch', SPEC_KINDS, BYTE_DEFS + SKIP_DEFS + STR_DEFS + ['K1'],
                         covers=['token produced', 'error produced', 'end of input reached', 'token after a skipped region'],
                         bounded=BOUND_NOTE % 'B1-B5, E1, S1, S2, U1, U2, E2, K1')
@@ -202,6 +215,7 @@ PLAN = {
     'C02': dict(
         level='model_checking', engine='verus+kani',
         verus=[('v_src', BOTH)],
+        twins=SRC_TWINS,
         kani=[KSRC_BOUNDARY] + klex_suite('K-lex error spans', SPEC_KINDS, ['E1', 'E2', 'B1', 'B2', 'U1', 'K2', 'L1'],
                         covers=['error produced', 'error longer than one byte'],
                         bounded=BOUND_NOTE % 'E1, E2, B1, B2, U1, K2, L1'),
@@ -215,6 +229,7 @@ PLAN = {
     'C03': dict(
         level='model_checking', engine='verus+kani',
         verus=[('v_src', BOTH)],
+        twins=SRC_TWINS,
         kani=klex_suite('K-lex progress and tiling', SPEC_KINDS, ['B1', 'B2', 'B5', 'E1', 'S1', 'S2', 'S3', 'U1', 'Q1', 'O2'],
                         covers=['end of input reached', 'token produced', 'token after a skipped region'],
                         bounded=BOUND_NOTE % 'B1, B2, B5, E1, S1, S2, U1, Q1, O2'),
@@ -228,6 +243,7 @@ PLAN = {
     'C04': dict(
         level='model_checking', engine='verus+kani',
         verus=[('v_src', BOTH)],
+        twins=SRC_TWINS,
         kani=[KSRC_BOUNDARY] + klex_suite('K-lex char boundaries', SPEC_KINDS, ['U1', 'U2', 'E2', 'L2', 'I1', 'P1', 'Q1'],
                         covers=['token produced', 'error produced'],
                         configs=((), ('verif_hooks',)), configs_quick=((),),
@@ -242,6 +258,7 @@ PLAN = {
     'C05': dict(
         level='model_checking', engine='verus+kani',
         verus=[('v_src', BOTH)],
+        twins=SRC_TWINS,
         kani=[KSRC_READ, KSRC_STATE, KSRC_BOUNDARY]
              + klex_suite('K-lex memory safety', SPEC_KINDS, ['B5', 'B7', 'B1', 'B2', 'S2', 'U1', 'E2', 'E1'],
                           covers=['token produced'], configs=((), ('forbid_unsafe',)),
@@ -267,6 +284,7 @@ PLAN = {
     'C07': dict(
         level='model_checking', engine='verus+kani',
         verus=[('v_src', BOTH)],
+        twins=SRC_TWINS,
         kani=klex_suite('K-lex partial lexing', ('part',), ['Q1', 'Q2', 'B1', 'B2', 'E1', 'S2', 'U1'],
                         covers=['partial lexer committed an item', 'partial lexer asked for more input'], quick_per_def=6,
                         bounded='relational: partial lexer over S[..k] vs one-shot lexer over S, every split point k of concrete contexts with a symbolic continuation byte; definitions Q1 (tests/partial.rs), B1, B2, E1, S2, U1'),
@@ -301,6 +319,7 @@ PLAN = {
     'C12': dict(
         level='model_checking', engine='verus+kani',
         verus=[('v_src', BOTH)],
+        twins=SRC_TWINS,
         kani=[KSRC_BOUNDARY] + klex_suite('K-lex str vs byte mode', ('modes',), ['U1', 'U2', 'M3'],
                         covers=['modes: token', 'modes: error'], quick_per_def=8,
                         bounded='relational: U1/U2 in str mode vs utf8 = false twins over valid UTF-8 contexts with symbolic bytes'),
@@ -313,6 +332,7 @@ PLAN = {
     'C13': dict(
         level='model_checking', engine='verus+kani',
         verus=[('v_src', BOTH), ('v_skip', BOTH)],
+        twins=SRC_TWINS,
         kani=klex_suite('K-lex callbacks', SPEC_KINDS, ['K1', 'K2'],
                         covers=['token produced', 'error produced', 'token after a skipped region'], quick_per_def=12,
                         bounded=BOUND_NOTE % 'K1 (one callback of every CallbackRetVal type, bump inside a callback), K2 (error callback, every SkipRetVal type)'),
@@ -326,7 +346,9 @@ PLAN = {
     'C14': dict(
         level='proof',
         verus=[('v_src', BOTH)],
-        kani=[KSRC_STATE],
+        twins=SRC_TWINS,
+        kani=[KSRC_STATE] + klex_suite('K-lex call histories', ('hist',), ['B1B2'], covers=['history: an item after a morph', 'history: an item from a clone', 'history: an item from spanned()'], quick_per_def=6,
+                                       bounded='real derived lexers B1/B2 over one source: next + morph (+ back), next + clone, spanned vs manual; concrete contexts with one symbolic byte'),
         engine='verus',
         technique='deductive verification (Verus/Z3) of requires/ensures contracts and a representation invariant on the real Lexer code, extracted mechanically each run',
         level_text='Every public operation of Lexer and SpannedIter (new*, span, slice, remainder, morph, clone, bump, next, spanned, deref) is proved, '
@@ -342,8 +364,8 @@ PLAN = {
     'C15': dict(
         level='proof',
         verus=[('v_src', BOTH)],
+        twins=SRC_TWINS,
         kani=[KSRC_BUMP],
-        twins={'Lexer::bump': 'bump_twin'},
         engine='verus',
         technique='deductive verification (Verus/Z3) of the bump contract incl. overflow freedom and a state invariant at the panic point; Kani twin for the concrete input',
         level_text='bump is proved for all (state, n): it returns only with token_end == old + n as integers and the invariant intact, never overflows, '
